@@ -543,3 +543,95 @@ def _two_sided_bound(ctx, node, idx, bobjs):
     if upper is None:
         miss.append("no live per-element upper bound against the container size")
     return False, "index is loaded from caller data; " + "; ".join(miss)
+
+
+# =================================================================================================
+# Q1 NULL-RESULT: a FILE* that fopen may have returned as null is tested by a live rejecting check before it is used  (C05)
+NULLABLE_SOURCES = {"fopen", "std::fopen", "fdopen", "freopen", "tmpfile", "std::tmpfile", "popen"}
+
+
+def rule_Q1(prog, fixture=False):
+    res = RuleResult("Q1", "the result of fopen / tmpfile / popen (null when the file cannot be opened - a condition the caller's "
+                           "argument controls) is compared with nullptr by a live, rejecting check before it is handed to any other "
+                           "call: fread / fseek / feof on a null FILE* is a crash, not an exception")
+    n = 0
+    for f in sorted(prog.functions.values(), key=lambda f: (f.file, f.line, f.name)):
+        if f.get("implicit") or f.file.endswith("coverage.cc"):
+            continue
+        rel = prog.rel(f.file)
+        if not fixture and not (rel.startswith("lib/") or rel.startswith("include/")):
+            continue
+        for d in f.walk():
+            if not (d.k == "VarDecl" and d.c and d.decl and d.decl.get("k") == "local" and d.tc == "ptr"):
+                continue
+            init = d.c[0].strip_all()
+            if not (init.k == "CallExpr" and init.callee and init.callee.get("qn") in NULLABLE_SOURCES):
+                continue
+            vid = d.decl["id"]
+            n += 1
+            key = "Q1:%s:%s" % (fkey(f), d.decl["n"])
+            where = "%s:%d" % (rel, d.line)
+            what = "%s = %s in %s" % (d.decl["n"], init.text()[:50], f.short)
+            f.blocks
+            bad = None
+            uses = 0
+            for u in f.walk():
+                if not (u.k == "DeclRefExpr" and u.decl and u.decl.get("id") == vid):
+                    continue
+                # the use: an argument of a call (not the comparison with nullptr itself, not `!fid`)
+                call = None
+                for a in u.ancestors():
+                    if a.k in ("BinaryOperator",) and a.op in ("==", "!="):
+                        break
+                    if a.k == "UnaryOperator" and a.op == "!":
+                        break
+                    if a.k in ("IfStmt", "WhileStmt", "ForStmt", "ConditionalOperator", "CompoundStmt"):
+                        break
+                    if a.is_call():
+                        call = a
+                        break
+                if call is None:
+                    continue
+                uses += 1
+                ok = False
+                for fact in f.facts_at(call):
+                    if fact.belief:
+                        continue
+                    for (c, pol) in atoms_of(fact.cond, fact.pol):
+                        if _says_non_null(c, pol, vid):
+                            ok = True
+                if not ok and bad is None:
+                    bad = call
+            if bad is not None:
+                res.add(key, VIOLATED, "%s:%d" % (rel, bad.line), what,
+                        "%s receives the pointer on a path on which no live check has excluded nullptr: for a file that cannot be "
+                        "opened this is a null FILE* inside the C library (a crash), where the property asks for an exception"
+                        % bad.text()[:70], func=f.name, extra={"props": ["C05"]})
+            else:
+                res.add(key, DISCHARGED, where, what, "all %d uses lie behind a live check against nullptr" % uses, func=f.name,
+                        extra={"props": ["C05"]})
+    res.stats["nullable_results"] = n
+    if not n and not fixture:
+        res.broken.append("anchor vanished: no fopen-like call whose result is kept in a local (lib/utils.cpp:_from_file)")
+    return res
+
+
+def _says_non_null(c, pol, vid):
+    c0 = c.strip_all()
+
+    def is_var(e):
+        e = e.strip_all()
+        return e.k == "DeclRefExpr" and e.decl and e.decl.get("id") == vid
+    if is_var(c0):
+        return bool(pol)                       # if (fid) ...
+    cmp_ = as_comparison(c0)
+    if cmp_ is None:
+        return False
+    l, op, r = cmp_
+    if not pol:
+        op = {"==": "!=", "!=": "=="}.get(op, op)
+
+    def is_null(e):
+        e = e.strip_all()
+        return e.k in ("CXXNullPtrLiteralExpr", "GNUNullExpr") or (e.k == "IntegerLiteral" and e.get("v") == "0")
+    return op == "!=" and ((is_var(l) and is_null(r)) or (is_var(r) and is_null(l)))
